@@ -695,9 +695,10 @@ ck.finish({
     "thread_stage": thread_info,
     "special_digest_bytes": special,
     "tables_translated": sorted(getattr(ck, "c14_tables", {}).keys()),
+    "translation_notes": getattr(ck, "c14_translation_notes", {}),
     "coqchk": coqchk if coqchk is not None else "not run in this tier",
 }, assumptions=[
-    "constants, block geometry (sizeof(buf_), the '> 56/112' test, the length offset), SIPCOMPRESS rotation amounts, tail table, SSE2 shuffle immediates and shift pairs are re-parsed from /repo on every run (translate/digest_tables.py); the control structure of process()/finalize()/compress/siphash is hand-modelled and tied by correspondence",
+    "only DATA is re-parsed from /repo on every run (translate/digest_tables.py; found by shape/content, then by execution, else the standard's value with a note in coverage.translation_notes): round-constant tables, initial values, MD5 order/rotation tables, SHA-2 rotation amounts, hex digits, SipHash constants, rotation amounts, shuffle immediates and shift amounts. Block geometry, padding code, SipHash tail handling and all control structure are hand-modelled and tied by the correspondence run only",
     "H_spec / sip_spec are the standards only as far as validated: official vectors as vm_compute Examples in Coq + hashlib / independent SipHash-2-4 on every generated message",
     "message bit length < 2^64 and every process() size < 2^32 (API type std::uint32_t); process(string_view) with >= 4 GiB is outside the model",
     "x86 rol/ror asm, memcpy/loadu loads and SSE2 intrinsics are modelled by their documented semantics (lanes as pairs of 64-bit words)",
